@@ -8,7 +8,7 @@ from synq import canon, walk
 PROPERTY = "C09"
 TITLE = "Literals denote exactly their written values or are rejected"
 NEEDS = ("syn",)
-TECHNIQUE = "static analysis: table extraction from syntax tree + abstract evaluation of range/defaulting tables, cross-crate agreement"
+TECHNIQUE = "static analysis: table extraction from syntax tree + abstract evaluation of range/defaulting tables, cross-crate agreement, abstract evaluation of the literal arms of the function compiler and of the constant-data builder for every numeric type"
 EXPLANATION = (
     "Static table extraction (engine B): (a) the escape tables of lower_string_literal and lower_char_literal are "
     "extracted from their match arms, compared with each other and with the reference table, default arm must report "
